@@ -80,11 +80,11 @@ def r04_16(chk, cr):
             chk.ob("R04.1", CR, q, "an edge is stored only under the key (lower index, higher index)", strict, node=e.node,
                    fingerprint=f"writer-order:{len(preds)}", found=[f"{'' if p else 'not '}{c}"[-90:] for c, p in e.guards][-2:])
         # predicate
-        pred = None
-        for c, pol in e.guards:
-            ca = c.as_atom()
-            if ca and ca[0] == "and" and pol:
-                pred = (c, a, b, d)
+        # the bonding predicate: the conjunction of the guards on the distance (compound conditions arrive split into their conjuncts)
+        from ..symex import boolop, negate
+        from ..poly import _mentions
+        parts = [cc if pol else negate(cc) for cc, pol in e.guards if d.as_atom() is not None and _mentions(cc, d.as_atom())]
+        pred = (boolop("and", parts), a, b, d) if len(parts) >= 2 else None
         preds.append(pred)
         if chk.want("R04.1"):
             if cell.key() == "(tuple (0 0 0))" or all(x == P.const(0) for x in (seq_items(cell) or [1])):
